@@ -147,7 +147,8 @@ def main(argv=None):
             json.dump({"property": pid, "key": key, "what": item.get("what"), "case": case, "result": res, "seed": seed, "tier": tier, "count": len(items)}, f, indent=1, default=str)
         lines.append("VIOLATION property=%s replay=%s  # key=%s x%d: %s" % (pid, path, key, len(items), (item.get("what") or "")[:300]))
     for key, items in known_hit.items():
-        print("KNOWN-FINDING: property=%s key=%s x%d: %s" % (pid, key, len(items), known[(pid, key)]["what"][:300]))
+        print("KNOWN-FINDING: property=%s key=%s x%d: %s | observed in this run: %s | case: %s" % (
+            pid, key, len(items), known[(pid, key)]["what"][:300], (items[0][2].get("what") or "")[:300], json.dumps(_shorten(items[0][0]), default=str)[:300]))
     import fnmatch as _fn
     for k in known_list:
         if not any(_fn.fnmatchcase(h, k["key"]) for h in known_hit):
@@ -191,6 +192,7 @@ def main(argv=None):
             "inconclusive_examples": {k: (v[0][1].get("what") or "")[:300] for k, v in list(inconc.items())[:6]},
             "skipped_for_time": n_skipped,
             "known_findings_hit": {k: len(v) for k, v in known_hit.items()},
+            "known_findings_observed": {k: (v[0][2].get("what") or "")[:400] for k, v in known_hit.items()},
             "violation_keys": {k: len(v) for k, v in viol.items()},
             "status": status,
             "status_reasons": reasons,
